@@ -102,10 +102,10 @@ theorem runRule_outside (S f) (hf : RuleLocal S f) (ts) : outside S (runRule f t
   bpass_outside S f hf ts _ _ _ _ _ (by simp) (by simp)
 
 def clsDelim (t : Tok) : Bool := t.isOpen || t.isClose
-def clsTry (t : Tok) : Bool := t.isI kwTry || t.isP '!' || t.isP '?' || clsDelim t
+def clsTry (t : Tok) : Bool := isTryName t || t.isP '!' || t.isP '?' || t.isP ',' || clsDelim t
 def clsAbi (t : Tok) : Bool := isAbiC t
 def clsVis (t : Tok) : Bool := t.isI kwIn || t.isP ':'
-def clsEmpty (t : Tok) : Bool := t.isP '<' || t.isP '>' || t.isI kwFor || t.isI kwWhere || t.isP ':'
+def clsEmpty (t : Tok) : Bool := t.isP '<' || t.isP '>' || t.isI kwFor || t.isI kwWhere || t.isP ':' || t.isP '+'
 def clsPipe (t : Tok) : Bool := t.isP '|'
 def clsBlock (t : Tok) : Bool := clsDelim t || t.isP ','
 def clsSemi (t : Tok) : Bool := t.isP ';'
@@ -190,13 +190,22 @@ theorem ruleTry_local : RuleLocal clsTry ruleTry := by
   rule_cases h
   · simp only [drop_, Option.some.injEq] at h; subst h; apply actLocal_drop; simp_all [clsTry]
   · simp only [drop_, Option.some.injEq] at h; subst h; apply actLocal_drop; simp_all [clsTry]
-  · rename_i hc
-    simp only [Option.some.injEq] at h; subst h
+  · rename_i hc _
+    cases h
     simp only [Bool.and_eq_true] at hc
     refine ⟨?_, ?_, by simp⟩
-    · simp [outside_cons, clsTry, clsDelim, isO_isOpen hc.1.1]
+    · simp [outside_cons, clsTry, clsDelim, hc.1.1]
     · intro o ho; simp at ho; subst ho
       exact ⟨by simp [outside_cons, clsTry, mkP, Tok.isP], fun c h => by simp [clsTry, clsDelim, h]⟩
+  · rename_i hc _
+    cases h
+    simp only [Bool.and_eq_true] at hc
+    refine ⟨?_, ?_, by simp⟩
+    · have ho := hc.1.1
+      simp [outside_cons, clsTry, clsDelim, ho]; simp [mkO, Tok.isOpen, isTryName, Tok.isI, Tok.isP]
+    · intro o ho; simp at ho; subst ho
+      exact ⟨by simp [outside_cons, clsTry, clsDelim, mkP, mkC, Tok.isP, Tok.isClose], fun c h => by simp [clsTry, clsDelim, h]⟩
+  · simp only [drop_, Option.some.injEq] at h; subst h; apply actLocal_drop; simp_all [clsTry]
 
 theorem paren_act_local {t : Tok} (h : t.isO '(' = true) :
     ActLocal clsDelim t { out := [], close := some [] } :=
@@ -302,7 +311,7 @@ theorem clsVis_soft (cfg) (t) (h : clsVis t = true) : soft cfg t = true := by
   unfold soft; rcases h with h | h <;> simp [h]
 theorem clsEmpty_soft (cfg) (t) (h : clsEmpty t = true) : soft cfg t = true := by
   simp only [clsEmpty, Bool.or_eq_true] at h
-  unfold soft; rcases h with (((h | h) | h) | h) | h <;> simp [h]
+  unfold soft; rcases h with ((((h | h) | h) | h) | h) | h <;> simp [h]
 theorem clsPipe_soft (cfg) (t) (h : clsPipe t = true) : soft cfg t = true := by
   simp only [clsPipe] at h; unfold soft; simp [h]
 theorem clsSemi_soft (cfg) (t) (h : clsSemi t = true) : soft cfg t = true := by
@@ -316,10 +325,11 @@ theorem clsBlock_soft (cfg) (t) (h : clsBlock t = true) : soft cfg t = true := b
   · unfold soft; simp [h]
 theorem clsTry_soft (cfg : Cfg) (hc : cfg.useTry = true) (t) (h : clsTry t = true) : soft cfg t = true := by
   simp only [clsTry, Bool.or_eq_true] at h
-  rcases h with ((h | h) | h) | h
+  rcases h with (((h | h) | h) | h) | h
   · unfold soft; simp [h, hc]
   · unfold soft; simp [h, hc]
   · unfold soft; simp [h, hc]
+  · unfold soft; simp [h]
   · exact clsDelim_soft cfg t h
 
 /-- the soft rules of `post` (everything but the two opt-in hard rewrites) -/
@@ -451,7 +461,7 @@ theorem isR_hard (cfg : Cfg) (t : Tok) (h : isR t = true) : hard cfg t = true :=
   · rename_i r hr
     simp only at hr
     subst hr
-    simp [hard, soft, Tok.isOpen, Tok.isClose, Tok.isP, Tok.isI, isAbiC]
+    simp [hard, soft, Tok.isOpen, Tok.isClose, Tok.isP, Tok.isI, isAbiC, isTryName]
   · cases h
 
 theorem isR_wrapTok (t : Tok) : isR (wrapTok t) = true := rfl
@@ -872,13 +882,17 @@ theorem canonLeaves_sound (k : Kind) (l1 l2 : List (List Tok)) (h : canonLeaves 
 
 /-! ## the two opt-in rewrites of hard tokens (coarse locality) -/
 
-def clsFis (t : Tok) : Bool := t.isP ':' || t.cls == ['i']
+def clsFis (t : Tok) : Bool := t.isP ':' || t.cls == ['i'] || t.cls == ['r']
 
 theorem ruleFis_local : RuleLocal clsFis ruleFis := by
   intro enc lo p2 p1 t rest a h
   unfold ruleFis at h
   rule_cases h
-  all_goals (simp only [drop_, Option.some.injEq] at h; subst h; apply actLocal_drop; simp_all [clsFis])
+  all_goals (simp only [drop_, Option.some.injEq] at h; subst h; apply actLocal_drop)
+  · simp_all [clsFis]
+  · rename_i hc
+    simp only [Bool.and_eq_true, Bool.or_eq_true, beq_iff_eq] at hc
+    rcases hc.1.1.1 with h | h <;> simp [clsFis, h]
 
 def clsWild (t : Tok) : Bool := isWild t || t.isP ',' || t.isP '.'
 
@@ -1093,7 +1107,7 @@ theorem resplitAux_outside : ∀ (ts : List Tok) (dots : Nat),
 
 /-- the tokens of a `#[doc = "…"]` / `#![doc = "…"]` attribute and doc comments: what `docAttr` may touch -/
 def clsDocAttr (t : Tok) : Bool :=
-  t.isP '#' || t.isP '!' || t.isO '[' || t.isC ']' || t.isI kwDoc || t.isP '=' || t.cls == ['L','s'] || t.isDoc
+  t.isP '#' || t.isP '!' || t.isO '[' || t.isC ']' || t.isI kwDoc || t.isP '=' || t.cls == ['L','s'] || t.cls == ['L','r'] || t.isDoc
 
 theorem docAttrToks_cls {inner : Bool} {o d e s c : Tok} {x : List Tok}
     (h : docAttrToks inner o d e s c = some x) :
@@ -1104,7 +1118,8 @@ theorem docAttrToks_cls {inner : Bool} {o d e s c : Tok} {x : List Tok}
   · rename_i hc
     simp only [Bool.and_eq_true, beq_iff_eq] at hc
     refine ⟨⟨by simp [clsDocAttr, hc.1.1.1.1], by simp [clsDocAttr, hc.1.1.1.2], by simp [clsDocAttr, hc.1.1.2],
-      by simp [clsDocAttr, hc.1.2], by simp [clsDocAttr, hc.2]⟩, ?_⟩
+      by (have := hc.1.2; simp only [Bool.or_eq_true, beq_iff_eq] at this; rcases this with h | h <;> simp [clsDocAttr, h]),
+      by simp [clsDocAttr, hc.2]⟩, ?_⟩
     simp only [Option.map_eq_some_iff] at h
     obtain ⟨v, _, rfl⟩ := h
     intro t ht
@@ -1244,7 +1259,7 @@ theorem mid_eq_map (cfg : Cfg) (h1 : cfg.docattr = false) (h2 : cfg.reflow = fal
 /-- drop an identifier that repeats the token before it (`prev`: that token) -/
 def squash : Tok → List Tok → List Tok
   | _, [] => []
-  | p, t :: ts => if t.cls == ['i'] && t == p then squash p ts else t :: squash t ts
+  | p, t :: ts => if (t.cls == ['i'] || t.cls == ['r']) && t == p then squash p ts else t :: squash t ts
 
 def FramePlain (fr : Frame) : Prop := fr.close = none ∧ fr.commaAfter = false ∧ fr.skipComma = false
 
@@ -1255,7 +1270,7 @@ theorem ruleFis_indep (enc : Nat) (lo p2 p1 t : Tok) (rest : List Tok) :
     ruleFis enc lo p2 p1 t rest = ruleFis 0 noTok p2 p1 t rest := rfl
 
 theorem ruleFis_some {p2 p1 t : Tok} {rest : List Tok} {a : Act} (h : ruleFis 0 noTok p2 p1 t rest = some a) :
-    a = { out := [] } ∧ (t.isP ':' = true ∨ (t.cls = ['i'] ∧ p1.isP ':' = true ∧ p2 = t)) := by
+    a = { out := [] } ∧ (t.isP ':' = true ∨ ((t.cls = ['i'] ∨ t.cls = ['r']) ∧ p1.isP ':' = true ∧ p2 = t)) := by
   unfold ruleFis at h
   rule_cases h
   all_goals (simp only [drop_, Option.some.injEq] at h; subst h; refine ⟨rfl, ?_⟩; simp_all)
@@ -1351,13 +1366,13 @@ theorem bpass_fis_squash (S : Tok → Bool) (hS : ∀ t : Tok, t.isP ':' = true 
             have hdd : fisDrops p2 p1 t ts = true := by unfold fisDrops; rw [hr]; rfl
             simp only [hdd, if_true, outside_nil, List.nil_append, outside_cons, hSt', Bool.false_eq_true, if_false]
             have : squash q (t :: outside S ts) = squash q (outside S ts) := by
-              rw [squash]; simp [hi, hq]
+              rw [squash]; rcases hi with hi | hi <;> simp [hi, hq]
             rw [this]
             exact ih _ _ _ _ _ hst' (hinv' q hq)
       · have hd' : fisDrops p2 p1 t ts = false := by simpa using hd
         simp only [hd', Bool.false_eq_true, if_false, outside_cons, hSt', List.cons_append]
         rw [squash, squash]
-        by_cases hsq : (t.cls == ['i'] && t == q) = true
+        by_cases hsq : ((t.cls == ['i'] || t.cls == ['r']) && t == q) = true
         · simp only [hsq, if_true, outside_nil, List.nil_append]
           have hq : q = t := by
             simp only [Bool.and_eq_true, beq_iff_eq] at hsq; exact hsq.2.symm
